@@ -40,6 +40,147 @@ def run(ck, F, E):
     legend(ck, F)
     unfiltered(ck, F, ml)
     converters_total(ck, F)
+    stays_in_loop(ck, F, ml)
+    analysis_stored(ck, F, ml)
+    converter_predicate(ck, F)
+    token_length_rule(ck, F)
+
+
+def converter_predicate(ck, F):
+    """A column is the number of UTF-16 units of the characters that lie strictly BEFORE the byte offset.  Where a converter
+    selects those characters with take_while / filter over char_indices(), the predicate is `index < offset` (or the same
+    test spelled `offset > index`): `<=` counts the character AT the offset too (columns one past the end of the line), a
+    reversed test counts nothing."""
+    n = 0
+    for body in F.bodies.values():
+        if body.crate != "abasic_lsp" or body.kind not in ("Fn", "AssocFn") or body.local_ty(0) != "u32":
+            continue
+        for c in body.calls():
+            if c.callee.split("::")[-1] not in ("take_while", "filter", "skip_while") or len(c.args) < 2:
+                continue
+            src = [x[1].split("::")[-1] for x in expr_calls(body.expr(c.args[0]))]
+            if "char_indices" not in src:
+                continue
+            cl = strip_expr(body.expr(c.args[1]))
+            cb = F.bodies.get(cl[1]) if cl[0] == "agg" else None
+            if cb is None:
+                continue
+            n += 1
+            r = strip_expr(cb.binding_expr(0))
+
+            def side(e):
+                e = strip_expr(e)
+                txt = repr(e)
+                if "'(closure" in txt:
+                    return "offset"
+                if "('param', 1)" in txt and "'(tuple)', '0'" in txt:
+                    return "index"
+                return "?"
+            ok = r[0] == "binop" and ((r[1] == "Lt" and side(r[2]) == "index" and side(r[3]) == "offset") or
+                                      (r[1] == "Gt" and side(r[2]) == "offset" and side(r[3]) == "index"))
+            if c.callee.split("::")[-1] == "skip_while":
+                ok = True       # a different construction: not decided here
+            ck.require(ok, "C20:UTF16:counts-strictly-before:%s" % body.path.split("::")[-1], "position units",
+                       "the characters counted are those with index < offset",
+                       "%s selects the characters to count with `%s`, not `index < offset`: columns are off by the character at "
+                       "the offset (past the end of the line for a range that ends there) or count nothing" %
+                       (body.path, show(r)[:60]), c.span)
+    return n
+
+
+def token_length_rule(ck, F):
+    """SemanticToken.length is column(range.end) - column(range.start) of the same token range."""
+    from lib import expr_has_field
+    st = F.one("get_semantic_tokens", "abasic_lsp")
+    if st is None:
+        return
+    for (bb, i, pl, rv, sp) in aggregates(st, "SemanticToken"):
+        names = rv.get("fields", [])
+        if "length" not in names:
+            continue
+        e = strip_expr(st.expr(rv["ops"][names.index("length")]))
+        if e[0] == "place" and isinstance(e[1], tuple) and e[1][0] == "binop":
+            e = e[1]
+        ok = e[0] == "binop" and e[1] in ("Sub", "SubWithOverflow") and expr_has_field(e[2], "end") and expr_has_field(e[3], "start") \
+            and not expr_has_field(e[2], "start") and not expr_has_field(e[3], "end")
+        if e[0] == "call" and e[1].split("::")[-1] in ("saturating_sub", "wrapping_sub", "checked_sub") and len(e[2]) == 2:
+            ok = expr_has_field(e[2][0], "end") and expr_has_field(e[2][1], "start")
+        ck.require(ok, "C20:DELTA:length", "delta encoding", "length = column(range.end) - column(range.start)",
+                   "SemanticToken.length is computed as %s, not as the end column minus the start column of the token's range: "
+                   "tokens overlap their successors or reach past the end of the line" % show(e)[:100], sp)
+
+
+def stays_in_loop(ck, F, ml):
+    """"the language server stays alive and answers each": the message loop of main_loop is left only when the client's channel
+    is closed (the receiver yields nothing more), on the shutdown request, or by propagating a transport error with `?`.  Every
+    edge out of the loop is classified by the switch it hangs on; a handler arm that `break`s (or returns) after answering ends
+    the server after its first message of that kind."""
+    loops = ml.natural_loops()
+    if not loops:
+        ck.missing("C20:ALIVE:loop-exits", "the message loop of main_loop")
+        return
+    h = max(loops, key=lambda k: len(loops[k]))
+    L = loops[h]
+    bad = []
+    n = 0
+    for u in sorted(L):
+        if ml.is_cleanup(u):
+            continue
+        for v in ml.succs(u):
+            if v in L or ml.is_cleanup(v) or ml.term(v)["k"] == "unreachable":
+                continue
+            n += 1
+            info = ml.switch_info(u) if ml.term(u)["k"] == "switch" else None
+            if info is None:
+                bad.append("a plain jump out of the loop (break / return after handling a message)")
+                continue
+            subject, targets, otherwise, names = info
+            txt = show(subject)
+            cn = [x[1].split("::")[-1] for x in expr_calls(subject)]
+            arm = None
+            for val, tg in targets.items():
+                if tg == v:
+                    arm = names.get(val, val) if names else val
+            if arm is None and names:
+                rest = [nm for val, nm in names.items() if val not in targets]
+                arm = rest[0] if len(rest) == 1 else tuple(rest)
+            if names and arm == "Break" and "branch" in cn:
+                continue                                  # `?`: transport error
+            if names and arm in ("None", "Err") and ".receiver" in txt and cn[:1] and cn[0] in ("next", "recv", "try_recv", "recv_timeout"):
+                continue                                  # channel closed
+            if "handle_shutdown" in cn:
+                continue                                  # shutdown request
+            bad.append("an exit on %s = %s" % (txt[:70], arm))
+    ck.floor("C20.exits of the message loop", n, 3)
+    ck.require(not bad, "C20:ALIVE:loop-exits", "stays alive",
+               "%d exits of the message loop: channel closed, shutdown request, or a propagated transport error" % n,
+               "main_loop leaves its message loop other than on channel close / shutdown / transport error (%s): the server stops "
+               "answering after such a message" % "; ".join(sorted(set(bad))), ml.span)
+
+
+def analysis_stored(ck, F, ml):
+    """Semantic tokens are answered from the document table, so every analysis of an opened / changed text must reach the table
+    (`insert` under the notification's URI on every path that goes on), or later token requests are answered from an older text
+    -- positions outside the current document."""
+    an = ml.calls_to("SourceFileAnalyzer::analyze")
+    pd = ml.postdominators()
+    k = 0
+    for c in an:
+        k += 1
+        ins = [x for x in ml.calls() if x.callee.split("::")[-1] == "insert" and "HashMap" in x.callee and
+               any(len(y) > 3 and y[3] is c for a in x.args for y in expr_calls(ml.expr(a, depth=30)))]
+        # an insert that every continuing path passes: it post-dominates the analysis, up to error exits
+        ok = any(x.bb in pd.get(c.bb, set()) or ml.dominates(c.bb, x.bb) and
+                 not [r for r in ml.blocks_reachable_from(c.target or c.bb, avoid={x.bb}) if r in loops_header(ml)] for x in ins)
+        ck.require(ok, "C20:DIAG:analysis-stored#%d" % k, "nothing filtered",
+                   "the analysis is inserted into the document table before the loop goes on",
+                   "main_loop analyses a text without storing the analysis in the document table (on some path): semantic tokens "
+                   "for that document keep coming from an older text", c.span)
+
+
+def loops_header(ml):
+    loops = ml.natural_loops()
+    return {max(loops, key=lambda k: len(loops[k]))} if loops else set()
 
 
 def only_casts_of_bytes(body, e):
